@@ -11,10 +11,16 @@ Local Open Scope N_scope.
 (* ---------- operations in the domain of the property ---------- *)
 
 (* an operator: non-empty, over the alphabet the parser accepts (letters, star, quote, double quote), and not
-   beginning with one of the three keywords that the operand parser would take for an operand *)
+   one of the three keywords of the operand grammar (a keyword is a whole token since the repair of
+   C14-keyword-operator, so an operator may BEGIN with one: nullify, trueType) *)
+Definition K_null : bytes := Eval cbv in bs "null".
+Definition K_true : bytes := Eval cbv in bs "true".
+Definition K_false : bytes := Eval cbv in bs "false".
+Definition K_BI : bytes := Eval cbv in bs "BI".
+Definition keyword_op (op : bytes) : bool :=
+  bytes_eqb K_null op || bytes_eqb K_true op || bytes_eqb K_false op.
 Definition operator_ok (op : bytes) : bool :=
-  match op with [] => false | _ => true end && forallb is_operator_char op &&
-  negb (prefixb (bs "null") op) && negb (prefixb (bs "true") op) && negb (prefixb (bs "false") op).
+  match op with [] => false | _ => true end && forallb is_operator_char op && negb (keyword_op op).
 
 (* an operand: a direct object other than a reference, nested at most MAX_BRACKET container levels *)
 Definition operand_wf (o : obj) : Prop := obj_wf o /\ ref_ok false o /\ (nest o <= MAX_DEPTH)%nat.
@@ -22,7 +28,7 @@ Definition operand_wf (o : obj) : Prop := obj_wf o /\ ref_ok false o /\ (nest o 
 Definition plain_op_wf (op : operation) : Prop :=
   operator_ok (op_operator op) = true /\
   Forall operand_wf (op_operands op) /\
-  (op_operands op = [] -> prefixb (bs "BI") (op_operator op) = false).
+  (op_operands op = [] -> bytes_eqb K_BI (op_operator op) = false).
 
 (* the data length an inline-image dictionary implies (image_data_stream, without the input) *)
 Definition img_len (d : dict) : option N :=
@@ -90,7 +96,7 @@ Definition image_op_wf (op : operation) : Prop :=
   op_operator op = bs "BI" /\
   exists d c, op_operands op = [OStream d c] /\
     NoDup (map fst d) /\ Forall (fun kv => obj_wf (snd kv) /\ (nest (snd kv) < MAX_DEPTH)%nat) d /\
-    img_len (norm_dict d) = Some (N.of_nat (length c)) /\ cs_start c = true.
+    img_len (norm_dict d) = Some (N.of_nat (length c)).
 
 Definition op_wf (op : operation) : Prop := plain_op_wf op \/ image_op_wf op.
 
@@ -104,7 +110,7 @@ Definition norm_op (op : operation) : operation :=
 
 Definition opchar_facts (c : byte) : bool :=
   negb (is_operator_char c) ||
-  (negb (byte_eqb c x25) && negb (is_content_space c) &&
+  (negb (byte_eqb c x25) && negb (is_content_space c) && is_regular c &&
    (byte_eqb c x6e || byte_eqb c x74 || byte_eqb c x66 || no_lead c)).
 Lemma opchar_sweep : byte_forallb opchar_facts = true.
 Proof. vm_compute. reflexivity. Qed.
@@ -115,8 +121,41 @@ Lemma opchar_spec c : is_operator_char c = true ->
 Proof.
   intro H. pose proof (byte_forallb_spec _ opchar_sweep c) as K. unfold opchar_facts in K.
   rewrite H in K. cbn [negb orb] in K.
-  apply andb_true_iff in K as [K K3]. apply andb_true_iff in K as [K1 K2].
+  apply andb_true_iff in K as [K K3]. apply andb_true_iff in K as [K K4]. apply andb_true_iff in K as [K1 K2].
   apply negb_true_iff in K1. apply negb_true_iff in K2. auto.
+Qed.
+
+Lemma opchar_regular c : is_operator_char c = true -> is_regular c = true.
+Proof.
+  intro H. pose proof (byte_forallb_spec _ opchar_sweep c) as K. unfold opchar_facts in K.
+  rewrite H in K. cbn [negb orb] in K.
+  apply andb_true_iff in K as [K K3]. apply andb_true_iff in K as [K K4]. exact K4.
+Qed.
+
+(* a keyword parser (tag + token_end) does not accept a different operator text: either the tag
+   does not match, or it matches a proper prefix and an operator character (a regular byte) follows *)
+Lemma pkeyword_cons a t s : pkeyword (a :: t) (a :: s) = pkeyword t s.
+Proof. unfold pkeyword, ptag. cbn [prefixb length drop]. rewrite byte_eqb_refl. reflexivity. Qed.
+
+Lemma pkeyword_cons_neq a b t s : byte_eqb a b = false -> pkeyword (a :: t) (b :: s) = PErr.
+Proof. intro H. unfold pkeyword, ptag. cbn [prefixb]. rewrite H. reflexivity. Qed.
+
+Lemma kw_op_err : forall t op tail,
+  forallb is_operator_char t = true -> forallb is_operator_char op = true ->
+  bytes_eqb t op = false -> starts_with is_operator_char tail = false ->
+  pkeyword t (op ++ tail) = PErr.
+Proof.
+  induction t as [|a t IH]; intros op tail Ht Hop Hne Hs.
+  - destruct op as [|c op]; [discriminate|]. cbn [forallb] in Hop. apply andb_true_iff in Hop as [Hc _].
+    unfold pkeyword, ptag. cbn [prefixb length drop app token_end]. rewrite (opchar_regular c Hc). reflexivity.
+  - cbn [forallb] in Ht. apply andb_true_iff in Ht as [Ha Ht].
+    destruct op as [|b op]; cbn [app].
+    + destruct tail as [|b tail]; [reflexivity|]. cbn [starts_with] in Hs.
+      apply pkeyword_cons_neq. apply byte_eqb_neq. intro E. subst. congruence.
+    + cbn [forallb] in Hop. apply andb_true_iff in Hop as [Hb Hop]. cbn [bytes_eqb] in Hne.
+      destruct (byte_eqb a b) eqn:E.
+      * apply byte_eqb_eq in E. subst b. rewrite pkeyword_cons. apply IH; assumption.
+      * apply pkeyword_cons_neq. exact E.
 Qed.
 
 Lemma obj_lead_spec c : obj_lead c = true ->
@@ -163,23 +202,32 @@ Qed.
 Lemma ptag_false t s : prefixb t s = false -> ptag t s = PErr.
 Proof. intro H. unfold ptag. rewrite H. reflexivity. Qed.
 
+Lemma operator_ok_parts op : operator_ok op = true ->
+  op <> [] /\ forallb is_operator_char op = true /\
+  bytes_eqb K_null op = false /\ bytes_eqb K_true op = false /\ bytes_eqb K_false op = false.
+Proof.
+  unfold operator_ok, keyword_op. intro H. apply andb_true_iff in H as [H H3]. apply andb_true_iff in H as [H1 H2].
+  apply negb_true_iff in H3. apply orb_false_iff in H3 as [H3 H5]. apply orb_false_iff in H3 as [H3 H4].
+  repeat split; try assumption. destruct op; [discriminate|discriminate].
+Qed.
+
 Lemma operand_operator_err f op tail :
   operator_ok op = true -> starts_with is_operator_char tail = false ->
   operand (S f) (op ++ tail) = PErr.
 Proof.
-  intros Hop Ht. unfold operator_ok in Hop.
-  repeat (apply andb_true_iff in Hop as [Hop ?]).
-  repeat match goal with X : negb _ = true |- _ => apply negb_true_iff in X end.
-  destruct op as [|c op]; [discriminate|]. cbn [forallb] in *.
-  match goal with X : _ && _ = true |- _ => apply andb_true_iff in X as [Hc Hrest] end.
+  intros Hop Ht. destruct (operator_ok_parts op Hop) as [Hne [Hall [Hn [Htr Hfa]]]].
+  destruct op as [|c op]; [contradiction|].
+  assert (Hc : is_operator_char c = true) by (cbn [forallb] in Hall; apply andb_true_iff in Hall; tauto).
   destruct (opchar_spec c Hc) as [_ [_ Hk]].
   assert (E : object_alts_c (direct_objects_at f (pred MAX_DEPTH)) (depth_ok MAX_DEPTH) false f ((c :: op) ++ tail) = PErr).
   { apply orb_true_iff in Hk as [Hk|Hk].
     - cbn [app]. apply alts_kw_lead; [exact Hk| |].
-      + unfold null. change (c :: op ++ tail) with ((c :: op) ++ tail).
-        rewrite ptag_false; [reflexivity|]. apply prefixb_app_false; auto.
+      + unfold null. change (c :: op ++ tail) with ((c :: op) ++ tail). change (bs "null") with K_null.
+        rewrite (kw_op_err K_null (c :: op) tail eq_refl Hall Hn Ht). reflexivity.
       + unfold boolean. change (c :: op ++ tail) with ((c :: op) ++ tail).
-        rewrite !ptag_false; [reflexivity| |]; apply prefixb_app_false; auto.
+        change (bs "true") with K_true. change (bs "false") with K_false.
+        rewrite (kw_op_err K_true (c :: op) tail eq_refl Hall Htr Ht),
+                (kw_op_err K_false (c :: op) tail eq_refl Hall Hfa Ht). reflexivity.
     - cbn [app]. apply alts_no_lead. exact Hk. }
   unfold operand. rewrite E. reflexivity.
 Qed.
@@ -188,9 +236,8 @@ Lemma operator_rt op tail :
   operator_ok op = true -> starts_with is_operator_char tail = false ->
   operator (op ++ tail) = POk op tail.
 Proof.
-  intros Hop Ht. unfold operator_ok in Hop.
-  repeat (apply andb_true_iff in Hop as [Hop ?]).
-  unfold operator. rewrite take_while_app by assumption. destruct op; [discriminate|reflexivity].
+  intros Hop Ht. destruct (operator_ok_parts op Hop) as [Hne [Hall _]].
+  unfold operator. rewrite take_while_app by assumption. destruct op; [contradiction|reflexivity].
 Qed.
 
 (* ---------- operands ---------- *)
@@ -249,15 +296,15 @@ Qed.
 
 Definition op_tail (tail : bytes) : Prop := starts_with is_operator_char tail = false.
 
-Lemma inline_image_not f s : prefixb (bs "BI") s = false -> inline_image f s = PErr.
-Proof. intro H. unfold inline_image. rewrite (ptag_false _ _ H). reflexivity. Qed.
+Lemma inline_image_not f s : pkeyword K_BI s = PErr -> inline_image f s = PErr.
+Proof. intro H. unfold inline_image. change (bs "BI") with K_BI. rewrite H. reflexivity. Qed.
 
 Lemma operator_head op : operator_ok op = true ->
   exists c t, op = c :: t /\ is_operator_char c = true.
 Proof.
-  intro H. unfold operator_ok in H. repeat (apply andb_true_iff in H as [H ?]).
-  destruct op as [|c t]; [discriminate|]. exists c, t. split; [reflexivity|].
-  match goal with X : forallb _ _ = true |- _ => cbn in X; apply andb_true_iff in X; tauto end.
+  intro H. destruct (operator_ok_parts op H) as [Hne [Hall _]].
+  destruct op as [|c t]; [contradiction|]. exists c, t. split; [reflexivity|].
+  cbn [forallb] in Hall; apply andb_true_iff in Hall; tauto.
 Qed.
 
 Lemma plain_head op tail : plain_op_wf op ->
@@ -272,13 +319,14 @@ Proof.
 Qed.
 
 Lemma plain_not_bi op tail : plain_op_wf op -> op_tail tail ->
-  prefixb (bs "BI") (encode_operation op ++ tail) = false.
+  pkeyword K_BI (encode_operation op ++ tail) = PErr.
 Proof.
   intros [Hop [Hw Hbi]] Ht. rewrite (encode_plain op Hw). destruct Hw as [|o ops [Hwo _] _].
-  - cbn [write_operands flat_map app]. apply prefixb_app_false; [apply Hbi; reflexivity|reflexivity|exact Ht].
+  - cbn [write_operands flat_map app]. destruct (operator_ok_parts _ Hop) as [_ [Hall _]].
+    apply kw_op_err; [reflexivity|exact Hall|apply Hbi; reflexivity|exact Ht].
   - cbn [write_operands flat_map]. destruct (write_object_lead o Hwo) as [c [t [E Hl]]]. rewrite E.
     rewrite <- !app_assoc. cbn [app]. destruct (obj_lead_spec c Hl) as [_ [_ C]].
-    cbn [bs String.list_byte_of_string prefixb]. cbn. rewrite C. reflexivity.
+    apply pkeyword_cons_neq. exact C.
 Qed.
 
 Lemma operation_plain_rt op tail fuel :
@@ -372,7 +420,7 @@ Lemma operation_image_rt op tail fuel :
   (length (encode_operation op ++ tail) + 2 <= fuel)%nat ->
   operation_p fuel (encode_operation op ++ tail) = POk (norm_op op) (content_space tail).
 Proof.
-  intros [Hop [d [c [Hops [Hnd [Hw [Hlen Hcs]]]]]]] Ht Hf.
+  intros [Hop [d [c [Hops [Hnd [Hw Hlen]]]]]] Ht Hf.
   destruct op as [oper operands]. cbn [op_operator op_operands] in *. subst oper operands.
   assert (EE : encode_operation {| op_operator := bs "BI"; op_operands := [OStream d c] |} = encode_inline_image d c)
     by reflexivity.
@@ -380,9 +428,10 @@ Proof.
   unfold operation_p. rewrite many0_comment_id by reflexivity.
   unfold inline_image.
   set (T := x20 :: c ++ x20 :: x45 :: x49 :: tail) in *.
-  assert (ptag (bs "BI") (x42 :: x49 :: bi_body d ++ x20 :: x49 :: x44 :: T) = POk tt (bi_body d ++ x20 :: x49 :: x44 :: T)) as -> by reflexivity.
-  destruct fuel as [|f]; [lia|]. destruct f as [|f]; [lia|].
   destruct (bi_strip d T) as [X [EX [HX1 [HX2 _]]]].
+  assert (pkeyword (bs "BI") (x42 :: x49 :: bi_body d ++ x20 :: x49 :: x44 :: T) = POk tt (bi_body d ++ x20 :: x49 :: x44 :: T)) as ->
+    by (rewrite EX; reflexivity).
+  destruct fuel as [|f]; [lia|]. destruct f as [|f]; [lia|].
   assert (Ecs : content_space (bi_body d ++ x20 :: x49 :: x44 :: T) = space (bi_body d ++ x20 :: x49 :: x44 :: T)).
   { rewrite EX, content_space_sp, space_sp, (content_space_tok _ HX2), (space_tok _ HX1). reflexivity. }
   cbn [length] in Hf.
@@ -391,12 +440,10 @@ Proof.
   rewrite Ecs, (inner_dict_bi f (pred MAX_DEPTH) T d (S f) [] Hw') by lia.
   assert (ptag (bs "ID") (x49 :: x44 :: T) = POk tt T) as -> by reflexivity.
   rewrite (fold_set_kv d [] Hnd). cbn [app].
-  (* the data *)
-  set (Y := if match c with [] => true | _ => false end then x45 :: x49 :: tail else x20 :: x45 :: x49 :: tail).
-  assert (E1 : content_space T = c ++ Y).
-  { unfold T, Y. rewrite content_space_sp. destruct c as [|b c']; [reflexivity|].
-    apply content_space_tok. exact Hcs. }
-  assert (E2 : content_space Y = x45 :: x49 :: tail) by (unfold Y; destruct c; reflexivity).
+  (* the data: exactly one space is taken after ID, the data follow whatever their first byte is *)
+  set (Y := x20 :: x45 :: x49 :: tail).
+  assert (E1 : id_sep T = c ++ Y) by reflexivity.
+  assert (E2 : content_space Y = x45 :: x49 :: tail) by reflexivity.
   rewrite E1, (image_data_rt c Y _ Hlen), E2.
   assert (ptag (bs "EI") (x45 :: x49 :: tail) = POk tt tail) as -> by reflexivity.
   cbn [pmap palt fst snd]. reflexivity.
@@ -475,48 +522,45 @@ Definition alphabet_op (o : bytes) : bool :=
   match o with [] => false | _ => true end && forallb is_operator_char o.
 
 (* inline image: operator BI, one stream operand whose dictionary implies exactly the data length
-   (supported colour space, geometry within usize, no filter), data as decode delivers it (not
-   beginning with content white space) *)
+   (supported colour space, geometry within usize, no filter); the data are arbitrary bytes (since the
+   repair of C14-image-leading-space they may begin with white space) *)
 Definition image_dom (op : operation) : Prop :=
   op_operator op = bs "BI" /\
   exists d c, op_operands op = [OStream d c] /\
     NoDup (map fst d) /\ Forall (fun kv => obj_wf (snd kv)) d /\
-    img_len (norm_dict d) = Some (N.of_nat (length c)) /\ cs_start c = true.
+    img_len (norm_dict d) = Some (N.of_nat (length c)).
+
+(* plain operation: the operator is not one of the three keywords of the operand grammar (null, true,
+   false are objects, not operators), operands are direct objects other than references, and BI
+   (the inline-image operator) does not stand alone *)
+Definition plain_dom (op : operation) : Prop :=
+  keyword_op (op_operator op) = false /\
+  Forall (fun o => obj_wf o /\ ref_ok false o) (op_operands op) /\
+  (op_operands op = [] -> bytes_eqb K_BI (op_operator op) = false).
 
 Definition op_dom (op : operation) : Prop :=
-  alphabet_op (op_operator op) = true /\
-  (Forall (fun o => obj_wf o /\ ref_ok false o) (op_operands op) \/ image_dom op).
-
-(* known finding C14-keyword-operator: the operator text begins with a keyword of the operand
-   grammar (null, true, false), or it has no operand and begins with BI *)
-Definition kw_operator (op : operation) : bool :=
-  prefixb (bs "null") (op_operator op) || prefixb (bs "true") (op_operator op) ||
-  prefixb (bs "false") (op_operator op) ||
-  (match op_operands op with [] => true | _ => false end && prefixb (bs "BI") (op_operator op)).
+  alphabet_op (op_operator op) = true /\ (plain_dom op \/ image_dom op).
 
 (* known finding C14-deep-nesting: an operand nests containers deeper than MAX_BRACKET *)
 Definition too_deep_op (op : operation) : bool :=
   existsb (fun o => Nat.ltb MAX_DEPTH (nest o)) (op_operands op).
 
-Definition known_class (op : operation) : bool := kw_operator op || too_deep_op op.
+Definition known_class (op : operation) : bool := too_deep_op op.
 
 Lemma dom_wf op : op_dom op -> known_class op = false -> op_wf op.
 Proof.
-  intros [Ha Hd] Hk. unfold known_class in Hk. apply orb_false_iff in Hk as [Hk Hdeep].
-  unfold kw_operator in Hk. repeat (apply orb_false_iff in Hk as [Hk ?]).
-  unfold too_deep_op in Hdeep.
+  intros [Ha Hd] Hdeep. unfold known_class, too_deep_op in Hdeep.
   assert (Hn : forall o, In o (op_operands op) -> (nest o <= MAX_DEPTH)%nat).
   { intros o Ho. destruct (Nat.ltb MAX_DEPTH (nest o)) eqn:E; [|apply Nat.ltb_ge in E; exact E].
     exfalso. assert (existsb (fun o => Nat.ltb MAX_DEPTH (nest o)) (op_operands op) = true)
       by (apply existsb_exists; eauto). congruence. }
-  destruct Hd as [Hp|Hi].
+  destruct Hd as [[Hk [Hp Hbi]]|Hi].
   - left. split; [|split].
     + unfold operator_ok. unfold alphabet_op in Ha. apply andb_true_iff in Ha as [A1 A2].
-      rewrite A1, A2, Hk. cbn [andb negb].
-      repeat match goal with X : prefixb _ _ = false |- _ => rewrite X; clear X end. reflexivity.
+      rewrite A1, A2, Hk. reflexivity.
     + rewrite Forall_forall in *. intros o Ho. destruct (Hp o Ho) as [A B]. split; [exact A|]. split; [exact B|auto].
-    + intro E. rewrite E in *. cbn [andb] in *. assumption.
-  - right. destruct Hi as [Hop [d [c [Hops [Hnd [Hw [Hl Hc]]]]]]]. split; [exact Hop|].
+    + exact Hbi.
+  - right. destruct Hi as [Hop [d [c [Hops [Hnd [Hw Hl]]]]]]. split; [exact Hop|].
     exists d, c. split; [exact Hops|]. split; [exact Hnd|]. split; [|auto].
     rewrite Hops in Hn. specialize (Hn _ (or_introl eq_refl)). cbn [nest] in Hn. fold (nest_dict d) in Hn.
     pose proof (nest_dict_le d (pred MAX_DEPTH) ltac:(lia)) as Hle.
@@ -564,7 +608,7 @@ Proof.
   - unfold ex_ops. repeat (apply Forall_cons; [split; [reflexivity|]|]); try apply Forall_nil;
       cbn [op_operands op_operator mkop snd fst].
     5: { right. split; [reflexivity|]. eexists _, _. split; [reflexivity|]. solve_obj_wf. }
-    all: left; solve_obj_wf.
+    all: left; (split; [reflexivity|split; [solve_obj_wf|try reflexivity; try discriminate]]).
   - repeat constructor.
 Qed.
 
@@ -581,7 +625,7 @@ Lemma ex_ops_result :
           mkop "f*" [] ].
 Proof. vm_compute. reflexivity. Qed.
 
-(* ---------- the known classes are real: witnesses ---------- *)
+(* ---------- the known class is real; the repaired classes now round-trip ---------- *)
 
 Definition kw_witness : operation := mkop "nullify" [].
 Definition bi_witness : operation := mkop "BIx" [].
@@ -593,21 +637,32 @@ Proof.
   induction k; cbn [nested]; [apply wf_int; reflexivity|]. apply wf_arr. constructor; [assumption|constructor].
 Qed.
 
-Lemma kw_witness_refutes :
-  op_dom kw_witness /\ known_class kw_witness = true /\
-  decode_content (encode_content [kw_witness]) = DecOk [mkop "ify" [ONull]].
-Proof. split; [split; [reflexivity|left; constructor]|]. split; vm_compute; reflexivity. Qed.
+Lemma plain_dom_nil o : keyword_op (bs o) = false -> bytes_eqb K_BI (bs o) = false -> plain_dom (mkop o []).
+Proof. intros H1 H2. split; [exact H1|]. split; [constructor|intros _; exact H2]. Qed.
 
-Lemma bi_witness_refutes :
-  op_dom bi_witness /\ known_class bi_witness = true /\
-  decode_content (encode_content [bi_witness]) = DecErr.
-Proof. split; [split; [reflexivity|left; constructor]|]. split; vm_compute; reflexivity. Qed.
+(* the former witnesses of C14-keyword-operator (fixed): operators that merely begin with a keyword *)
+Lemma kw_witness_fixed :
+  op_dom kw_witness /\ known_class kw_witness = false /\
+  decode_content (encode_content [kw_witness; bi_witness; mkop "trueType" [OBool true; ONull]; mkop "falsey" [ONull]]) =
+  DecOk [kw_witness; bi_witness; mkop "trueType" [OBool true; ONull]; mkop "falsey" [ONull]].
+Proof.
+  split; [split; [reflexivity|left; apply plain_dom_nil; reflexivity]|]. split; vm_compute; reflexivity.
+Qed.
+
+(* the restriction that remains is necessary: the three keywords themselves are operands, and a lone BI
+   starts the inline-image grammar *)
+Lemma keyword_operator_refuted :
+  decode_content (encode_content [mkop "null" []]) = DecOk [] /\
+  decode_content (encode_content [mkop "true" [OInt 1]]) = DecOk [] /\
+  decode_content (encode_content [mkop "q" []; mkop "false" []; mkop "Q" []]) = DecOk [mkop "q" []; mkop "Q" [OBool false]] /\
+  decode_content (encode_content [mkop "BI" []]) = DecErr.
+Proof. repeat split; vm_compute; reflexivity. Qed.
 
 Lemma deep_witness_refutes :
   op_dom deep_witness /\ known_class deep_witness = true /\
   decode_content (encode_content [deep_witness]) = DecOk [].
 Proof.
-  split; [split; [reflexivity|left; constructor; [split; [apply nested_wf|exact I]|constructor]]|].
+  split; [split; [reflexivity|left; split; [reflexivity|split; [constructor; [split; [apply nested_wf|exact I]|constructor]|discriminate]]]|].
   split; vm_compute; reflexivity.
 Qed.
 
@@ -623,10 +678,13 @@ Proof. vm_compute. reflexivity. Qed.
 Lemma nan_operand_refuted :
   decode_content (encode_content [mkop "x" [OReal (bs "NaN")]]) = DecOk [mkop "NaN" []; mkop "x" []].
 Proof. vm_compute. reflexivity. Qed.
-(* inline-image data beginning with content white space is not in the image of decode *)
-Lemma image_space_data_refuted :
+(* inline-image data beginning with white space (fixed finding C14-image-leading-space): one byte is
+   taken after ID, the samples are read back exactly *)
+Lemma image_space_data_fixed :
   decode_content (encode_content
-    [mkop "BI" [OStream [(bs "W", OInt 1); (bs "H", OInt 1); (bs "CS", OName (bs "Gray")); (bs "BPC", OInt 8)] [x20]]]) = DecErr.
+    [mkop "BI" [OStream [(bs "W", OInt 2); (bs "H", OInt 1); (bs "CS", OName (bs "Gray")); (bs "BPC", OInt 8)] [x20; x0a]]]) =
+  DecOk [mkop "BI" [OStream [(bs "W", OInt 2); (bs "H", OInt 1); (bs "CS", OName (bs "Gray")); (bs "BPC", OInt 8);
+                             (bs "Length", OInt 2)] [x20; x0a]]].
 Proof. vm_compute. reflexivity. Qed.
 
 (* ---------- what decode delivers for an inline image ---------- *)
@@ -718,24 +776,23 @@ Theorem inline_image_sound fuel s ops op r :
   inline_image fuel s = POk (ops, op) r ->
   op = bs "BI" /\
   exists d c, ops = [OStream d c] /\ NoDup (map fst d) /\
-              img_len d = Some (N.of_nat (length c)) /\ cs_start c = true /\
+              img_len d = Some (N.of_nat (length c)) /\
               dict_get d K_Length = Some (OInt (Z.of_nat (length c))).
 Proof.
-  unfold inline_image. destruct (ptag (bs "BI") s) as [u r0| | | |]; try discriminate.
+  unfold inline_image. destruct (pkeyword (bs "BI") s) as [u r0| | | |]; try discriminate.
   destruct fuel as [|f]; [discriminate|].
   destruct (inner_dictionary _ f (content_space r0) []) as [d r1| | | |] eqn:Ed; try discriminate.
   destruct (ptag (bs "ID") r1) as [u1 r2| | | |]; try discriminate.
-  destruct (image_data_stream (content_space r2) d) as [c r3| |] eqn:Ei; try discriminate.
+  destruct (image_data_stream (id_sep r2) d) as [c r3| |] eqn:Ei; try discriminate.
   destruct (ptag (bs "EI") (content_space r3)) as [u2 r4| | | |]; try discriminate.
   intro H. inversion H; subst. split; [reflexivity|].
   rewrite image_data_stream_len in Ei. destruct (img_len d) as [len|] eqn:El; [|discriminate].
   destruct (_ <? len); [discriminate|].
-  destruct (take_n (N.to_nat len) (content_space r2)) as [[c' r']|] eqn:Et; [|discriminate].
+  destruct (take_n (N.to_nat len) (id_sep r2)) as [[c' r']|] eqn:Et; [|discriminate].
   inversion Ei; subst c' r'. destruct (take_n_spec _ _ _ _ Et) as [Es Hl].
   exists (dict_set d K_Length (OInt (Z.of_nat (length c)))), c. split; [reflexivity|].
   split; [apply dict_set_nodup; apply (inner_dictionary_nodup _ _ _ _ _ _ Ed); constructor|].
   split; [rewrite img_len_set_length, El, Hl, N2Nat.id; reflexivity|].
-  split; [apply (cs_start_prefix c r3); rewrite <- Es; apply content_space_cs|].
   apply dict_get_set_same.
 Qed.
 
@@ -747,14 +804,12 @@ Theorem decoded_image_reencodes fuel s d c r :
   Forall (fun kv => obj_wf (snd kv)) d -> norm_dict d = d -> (nest (OStream d c) <= MAX_DEPTH)%nat ->
   decode_content (encode_content [mkop "BI" [OStream d c]]) = DecOk [mkop "BI" [OStream d c]].
 Proof.
-  intros H Hw Hn Hd. destruct (inline_image_sound _ _ _ _ _ H) as [_ [d' [c' [E [Hnd [Hl [Hc Hg]]]]]]].
+  intros H Hw Hn Hd. destruct (inline_image_sound _ _ _ _ _ H) as [_ [d' [c' [E [Hnd [Hl Hg]]]]]].
   inversion E; subst d' c'.
   assert (Hdom : op_dom (mkop "BI" [OStream d c])).
   { split; [reflexivity|]. right. split; [reflexivity|]. exists d, c. rewrite Hn. auto. }
   assert (Hk : known_class (mkop "BI" [OStream d c]) = false).
-  { unfold known_class, kw_operator, too_deep_op. cbn [mkop op_operator op_operands existsb orb andb].
-    change (prefixb (bs "null") (bs "BI")) with false. change (prefixb (bs "true") (bs "BI")) with false.
-    change (prefixb (bs "false") (bs "BI")) with false. cbn [orb].
+  { unfold known_class, too_deep_op. cbn [mkop op_operator op_operands existsb orb andb].
     destruct (Nat.ltb MAX_DEPTH (nest (OStream d c))) eqn:E2; [apply Nat.ltb_lt in E2; lia|reflexivity]. }
   rewrite (content_rt_dom [mkop "BI" [OStream d c]])
     by (apply Forall_cons; [assumption|apply Forall_nil]).
